@@ -66,3 +66,20 @@ From QV Require Import SignalsRaw.
 Record rcase := { rc_ops : list (rop * robs) }.
 Definition raw_mismatches (g : scfg) (ks : list rcase) : list nat :=
   bad_idx (fun k => raw_agrees g rinit (rc_ops k)) ks 0.
+
+(* ---- the client side of subscriptions on one client, with readers that read only when the harness
+        says so (SignalsFwd.v): the operations with what each receive attempt found are replayed (every
+        one must be explained by the model); at the end every subscriber's channel state and what it
+        received must be the model's ---- *)
+From QV Require Import SignalsFwd.
+Record fcase := { fk_ops : list fop; fk_subs : list (bool * list N) }.
+Definition fcase_ok (k : fcase) : bool :=
+  match freplay finit (fk_ops k) with
+  | None => false
+  | Some st =>
+      Nat.eqb (List.length (fsubs st)) (List.length (fk_subs k)) &&
+      forallb (fun p => Bool.eqb (f_done (fst p)) (fst (snd p)) && eqb_ln (f_got (fst p)) (snd (snd p)))
+              (combine (fsubs st) (fk_subs k)) &&
+      negb (fover st)
+  end.
+Definition fwd_mismatches (ks : list fcase) : list nat := bad_idx fcase_ok ks 0.
